@@ -1,0 +1,5 @@
+//go:build !verif
+
+package schema
+
+func verifPoint(point string, args ...interface{}) {}
